@@ -1,6 +1,6 @@
 """C05 - inline-storage promise: no dynamic allocation within N."""
 from .. import matrix
-from ..rules import callgraph, shape, shape2, encoding
+from ..rules import callgraph, shape, shape2, encoding, sets
 
 
 def run(tier, runner):
@@ -10,21 +10,26 @@ def run(tier, runner):
     small = [p for p in progs_all if p.meta['flavour'] == 'small']
     r1 = callgraph.noalloc(progs)
     r1.require(40, 'FixedCapacityVector members')
-    r_cs = shape.cap_stable(small)
-    r_gg = shape.grow_guard(small)
+    real = matrix.real_programs(runner, tier)
+    r_cs = shape.cap_stable(small + real)
+    r_gg = shape.grow_guard(small + real)
     r_span = shape2.inline_span(progs_all)
-    r_w = encoding.enc_w(small)
-    r_r = encoding.enc_r(small)
+    r_w = encoding.enc_w(small + real)
+    r_r = encoding.enc_r(small + real)
+    ssp = matrix.programs(runner, matrix.smallset_points(tier)) + real
+    r_ssg = sets.ss_grow(ssp)
+    r_sss = sets.ss_state(ssp)
+    r_ssg.require(3, 'SmallSet grow call sites')
     r_cs.require(20, 'SmallVector mutators')
     r_gg.require(7, 'grow call sites')
     r_span.require(6, 'inline layouts')
     return {
-        'results': [r1, r_cs, r_gg, r_span, r_w, r_r],
+        'results': [r1, r_cs, r_gg, r_span, r_w, r_r, r_ssg, r_sss],
         'explanation': 'NOALLOC: on the complete resolved call graph of every FixedCapacityVector instantiation (all public members, '
                        'all archetypes, both growing policies; bodies of std algorithms included) no allocation request (malloc/realloc/'
                        'operator new/get_temporary_buffer/any allocator allocate) is reachable.  SmallVector, structural half: CAP-STABLE (an allocator request is reachable from the '
                        'mutators only through grow), GROW-GUARD (grow only when capacity() is insufficient), INLINE-SPAN (the elements live inside the '
-                       'object), ENC-W / ENC-R (capacity() can report N while inline because the encoding is only written and read through its discipline).',
+                       'object), ENC-W / ENC-R (capacity() can report N while inline because the encoding is only written and read through its discipline).  SmallSet: SS-GROW (the allocating inline -> large transition happens only when the inline vector is full and a new element must be added, or when merging a large set) and SS-STATE (only the inline vector is written while inline).',
         'assumptions': ['the allocation of an exception object is not an AST call and is outside the property',
                         'capacity() == N in every reachable inline state is a relation between run-time words and is not decided',
                         'SmallSet: see C04 (SS-STATE); whether std::set allocates for an empty set is a run-time matter of the standard library'],
